@@ -65,6 +65,12 @@ def dataset_specs(tier):
             fam = "all" if (not quick or g == 4 or len(p) != 3) else "direct"
             for mode in MODES:
                 out.append((("craft", g, p, mode), fam))
+    # configurations whose declared count differs from what the dataset holds
+    for delta in (3, -1, -2):
+        # (not with per-maze metadata: the documented in-place collection of the minimal formats then re-syncs the count, which is
+        #  the dataset's own business and not a round-trip question)
+        for mode in ("no_generation_meta", "collected_meta"):
+            out.append((("stale", 3, "x1m2", delta, mode), "all"))
     # solution lengths across the 127/128 and 255/256 boundaries
     out.append((("long", 12, (127, 128, 129, 144), "no_generation_meta"), "all"))
     out.append((("long", 12, (3, 144, 2), "no_generation_meta"), "direct"))
@@ -151,6 +157,13 @@ def build(dspec):
             snake += [(i, j) for j in (range(g) if i % 2 == 0 else range(g - 1, -1, -1))]
         mazes = [SolvedMaze(connection_list=cl.copy(), solution=np.array(snake[:k]), generation_meta=None) for k in ks]
         return MazeDataset(MazeDatasetConfig(name="long", grid_n=g, n_mazes=len(ks), seed=5), mazes), None
+    if dspec[0] == "stale":
+        # a dataset whose configuration declares another count than it holds (hand-built, or sliced after generation)
+        _, g, pat, delta, mode = dspec
+        ds, ref = build(("craft", g, pat, mode))
+        cfg = MazeDatasetConfig(name="stale", grid_n=g, n_mazes=len(pat) + delta, seed=5)
+        out = MazeDataset(cfg, list(ds.mazes), generation_metadata_collected=ds.generation_metadata_collected)
+        return out, ref
     if dspec[0] == "kept":
         from . import c05_chain
 
